@@ -14,7 +14,7 @@ CONSTANTS Profile   \* "parse" (anything the grammar accepts) | "wrap" (restrict
 Pick(S) == RandomElement(S)
 Pct(u) == RandomElement(1..100)   \* NB: an operator *with* a parameter: TLC evaluates zero-arity definitions once
 
-NsNamePool     == {"gtsam", "ns1", "ns2", "inner", "a", "b"}
+NsNamePool     == {"gtsam", "ns1", "ns2", "inner", "a", "b", "gtsam_unstable", "ab"}   \* some names are prefixes of others
 ClassNamePool  == {"A", "B", "Pose3", "Test", "MyFactor", "T1", "Value", "Klass"}
 ParamPool      == {"T", "U", "POSE", "Va"}
 CustomPool     == {"A", "B", "Pose3", "Test", "Vector", "Matrix", "string", "Point3", "Type", "Value", "T1", "Key"}
@@ -113,7 +113,9 @@ RandMember(ctx) ==
   ELSE IF r <= 50 THEN
        LET tm == IF Pct(0) <= 20 THEN RandTmpl(ctx, TRUE) ELSE <<>>
            c2 == WithParams(ctx, tm)
-       IN Method(Pick(MethodNamePool), tm, RandRet(c2), RandArgs(c2, 3), Pct(0) <= 50)
+           \* names with special treatment in the generators come up often
+           nm == IF Pct(0) <= 12 THEN "print" ELSE IF Pct(0) <= 6 THEN "serialize" ELSE Pick(MethodNamePool)
+       IN Method(nm, tm, RandRet(c2), RandArgs(c2, 3), Pct(0) <= 50)
   ELSE IF r <= 65 THEN
        LET tm == IF Pct(0) <= 20 THEN RandTmpl(ctx, TRUE) ELSE <<>>
            c2 == WithParams(ctx, tm)
